@@ -35,6 +35,10 @@ type Layout struct {
 	Entities  bool // &quot; &apos; &#x...; with leading zeros / upper-case hex in character data
 	Prolog    int  // 0 none, 1 comment before the root, 2 processing instruction before the root, 3 byte-order mark
 	Epilog    int  // 0 none, 1 comment after the root, 2 white space after the root
+	// ShadowRoot: the IdP itself writes vendor attributes in a foreign namespace that are spelled like the SAML
+	// ones (ext:InResponseTo) on the message root, before (1) or after (2)
+	// the real attributes; not schema-valid, but nothing in the library objects to it. Never drawn by DrawLayout.
+	ShadowRoot int
 	Extras    bool // optional schema-valid content a conforming IdP may add (Extensions, Advice, NameID / SubjectConfirmationData attributes, AuthenticatingAuthority, foreign attributes)
 	Seed      uint64
 }
@@ -517,7 +521,18 @@ func RenderMessage(m *LResponse, l Layout) string {
 	if m.InResponseTo != "" {
 		attrs = append(attrs, attr{"InResponseTo", m.InResponseTo})
 	}
-	w.open(P+m.Kind, st.rootNS, attrs, false)
+	rootNS := st.rootNS
+	if l.ShadowRoot != 0 {
+		// (ext:ID / ext:Destination / ext:Version would make the message unacceptable whichever attribute wins)
+		shadow := []attr{{"ext:InResponseTo", "_vendor_irt"}}
+		if l.ShadowRoot == 1 {
+			attrs = append(shadow, attrs...)
+		} else {
+			attrs = append(attrs, shadow...)
+		}
+		rootNS = append(append([]attr(nil), rootNS...), attr{"xmlns:ext", "urn:vendor:extension"})
+	}
+	w.open(P+m.Kind, rootNS, attrs, false)
 	w.depth++
 	if m.Issuer != nil {
 		w.nl()
